@@ -51,6 +51,13 @@ type Case struct {
 	MsgCap  int `json:"message_channel_capacity"`
 	StallAt int `json:"consumer_stall_at"` // -1 = never
 	StallMs int `json:"consumer_stall_ms"`
+	// Prelude: before the script runs, the same file handler object has already served one Handle call
+	// that ended in silence beyond the tolerance (a source that was reconnected).
+	Prelude bool `json:"prelude_call_on_same_handler"`
+	// ErrorAfterStep k > 0: the reader reports another read error once, right after step k-1 (and its
+	// interruptions), and would supply the remaining data if it were asked again - the handler must stop
+	// there and must not read on.  0 = no such error.
+	ErrorAfterStep int `json:"error_after_step_1based"`
 }
 
 var errTimeout = errors.New("read /dev/ttyUSB0: i/o timeout")
@@ -66,6 +73,8 @@ type faultReader struct {
 	faults   int // faults of the current step already returned
 	idles    int // idle reads of the current step already returned
 	terminal string
+	errAfter int  // -1 = none
+	errGiven bool // the mid-stream error has been reported
 	// observations
 	supplied   int
 	faultTimes []time.Time // time of each fault call
@@ -114,6 +123,10 @@ func (r *faultReader) Read(p []byte) (int, error) {
 			r.faultRun = append(r.faultRun, r.faults)
 			return 0, r.err(st.Kind)
 		}
+		if r.errAfter == r.si && !r.errGiven {
+			r.errGiven = true
+			return 0, errOther
+		}
 		r.si++
 		r.given, r.faults, r.idles = 0, 0, 0
 	}
@@ -144,8 +157,13 @@ func check(c Case, o *stats.Obs) error {
 	expectBytes := 0
 	stoppedEarlyByModel := false
 	var wantErr error
-	for _, s := range c.Steps {
+	for si, s := range c.Steps {
 		expectBytes += s.Data
+		if c.ErrorAfterStep-1 == si && !(s.Faults > 0 && zeroTol) {
+			stoppedEarlyByModel = true
+			wantErr = errOther
+			break
+		}
 		if s.Faults > 0 && zeroTol {
 			stoppedEarlyByModel = true
 			if s.Kind == "timeout" {
@@ -180,7 +198,29 @@ func check(c Case, o *stats.Obs) error {
 	}
 	msgChan := make(chan handler.Message, mc)
 	fh := filehandler.New(msgChan, cfg)
-	rd := &faultReader{data: input, steps: c.Steps, terminal: c.Terminal}
+	if c.Prelude {
+		// first call: two bytes of junk, then silence until the handler gives up
+		pre := &faultReader{data: []byte("ab"), steps: []Step{{Data: 2}}, terminal: "silence", errAfter: -1}
+		preDone := make(chan struct{})
+		go func() { fh.Handle(drive.StartTime, bufio.NewReaderSize(pre, 16)); close(preDone) }()
+		drained := make(chan struct{})
+		go func() {
+			for range msgChan {
+			}
+			close(drained)
+		}()
+		select {
+		case <-preDone:
+		case <-time.After(30 * time.Second):
+			o.Skip = true
+			return nil
+		}
+		<-drained
+		msgChan = make(chan handler.Message, mc)
+		fh.MessageChan = msgChan
+		o.Class("second-call-on-same-handler")
+	}
+	rd := &faultReader{data: input, steps: c.Steps, terminal: c.Terminal, errAfter: c.ErrorAfterStep - 1}
 	bs := c.BufSize
 	if bs < 16 {
 		bs = 16
@@ -307,6 +347,9 @@ collect:
 	if zeroTol {
 		o.Class("zero-tolerance")
 	}
+	if c.ErrorAfterStep > 0 {
+		o.Class("read-error-then-more-data-available")
+	}
 	return nil
 }
 
@@ -322,6 +365,7 @@ func gen1(t *rapid.T) Case {
 	c.BufSize = rapid.SampledFrom([]int{16, 32, 4096}).Draw(t, "bufSize")
 	c.Terminal = rapid.SampledFrom([]string{"silence", "silence", "other-error"}).Draw(t, "terminal")
 	c.MsgCap = rapid.SampledFrom([]int{0, 1, 4}).Draw(t, "msgCap")
+	c.Prelude = rapid.IntRange(0, 5).Draw(t, "prelude") == 3
 	c.StallAt = -1
 	if c.TimeoutMs > 0 && rapid.IntRange(0, 3).Draw(t, "stall") == 0 {
 		c.StallAt = rapid.IntRange(0, 3).Draw(t, "stallAt")
@@ -358,6 +402,20 @@ func gen1(t *rapid.T) Case {
 		if st.Data > 0 || st.Faults > 0 || st.Idle > 0 {
 			c.Steps = append(c.Steps, st)
 		}
+	}
+	// Another read error may strike anywhere, in particular right after an interruption: cut the script
+	// (and the stream) after a drawn step.
+	if c.Terminal == "other-error" && len(c.Steps) > 1 && rapid.Bool().Draw(t, "errorMidStream") {
+		keep := rapid.IntRange(1, len(c.Steps)).Draw(t, "stepsBeforeError")
+		c.Steps = c.Steps[:keep]
+		n := 0
+		for _, st := range c.Steps {
+			n += st.Data
+		}
+		c.Stream = gen.Stream{Segs: []gen.Segment{{Kind: "raw", Note: "prefix-before-read-error", Data: append([]byte{}, input[:n]...)}}}
+	}
+	if len(c.Steps) > 1 && rapid.IntRange(0, 3).Draw(t, "errorThenMoreData") == 1 {
+		c.ErrorAfterStep = 1 + rapid.IntRange(0, len(c.Steps)-2).Draw(t, "errorAfterStep")
 	}
 	return c
 }
